@@ -25,7 +25,7 @@ OBJS = ['o1', 'o2', 'o3']
 
 
 def cases(max_timed, horizons):
-    def build(tt, cyc, pre, timed, T, split, pol, seed, late, between, init):
+    def build(tt, cyc, pre, timed, T, split, pol, seed, late, between, init, mach):
         tt = [list(x) for x in tt]
         if sum(d for d, _ in tt) == 0:
             tt[0][0] = 1
@@ -45,7 +45,7 @@ def cases(max_timed, horizons):
             # registration calls only make sense once the scheduler exists
             out = [x for x in out if x[0] > late or (x[0] == late and x[1] < 13 and not between)]
         return {'timetable': tt, 'cyclical': cyc, 'pre': [list(x) for x in pre], 'timed': out, 'T': Ts,
-                'tb': [pol, seed], 'late': late, 'between': between, 'init': bool(init and not late and not between)}
+                'tb': [pol, seed], 'late': late, 'between': between, 'init': bool(init and not late and not between), 'machine': mach}
     entry = st.tuples(st.sampled_from(G), st.sampled_from(['a', 'b', 'c', None, 0]))
     pre = st.lists(st.tuples(st.sampled_from(OBJS), st.booleans()), max_size=4)
     timed = st.lists(st.tuples(st.sampled_from([0, 0.5, 1, 1.75, 2, 3, 4.5, 7, 10]),
@@ -55,7 +55,8 @@ def cases(max_timed, horizons):
     return st.builds(build, st.lists(entry, min_size=1, max_size=6), st.sampled_from([True, False, None]), pre, timed,
                      st.sampled_from(horizons), st.booleans(), st.sampled_from(['random', 'fifo', 'lifo', 'const']),
                      st.integers(0, 10 ** 6), st.sampled_from([None, None, None, 0.5, 1.75, 2.5]),
-                     st.sampled_from([False, False, False, True]), st.sampled_from([False, False, False, False, True]))
+                     st.sampled_from([False, False, False, True]), st.sampled_from([False, False, False, False, True]),
+                     st.sampled_from([None, None, [0.75, 2.25, 3.5], [1, 1.5, 2], [0.25, 4.75, 0.5]]))
 
 
 def valid(case):
